@@ -504,8 +504,12 @@ func growMap(v reflect.Value) bool {
 			best = i
 		}
 	}
+	cur := v.MapIndex(keys[best])
+	if !cur.IsValid() {
+		return false // a NaN key: not retrievable
+	}
 	cp := reflect.New(v.Type().Elem()).Elem()
-	cp.Set(v.MapIndex(keys[best]))
+	cp.Set(cur)
 	if growAny(cp) {
 		v.SetMapIndex(keys[best], cp)
 		return true
@@ -541,4 +545,57 @@ func growAny(v reflect.Value) bool {
 		}
 	}
 	return false
+}
+
+var dupZone = time.FixedZone("dup", 3600)
+
+// DupDateKeys adds, to every non-empty map keyed by time.Time that v holds (at any depth),
+// one entry whose key is the SAME instant as an existing key in another time zone: a
+// different Go map key that is the same date on the wire. It returns how many maps grew.
+// v must be addressable.
+func DupDateKeys(v reflect.Value) int {
+	n := 0
+	switch v.Kind() {
+	case reflect.Ptr:
+		if !v.IsNil() {
+			n += DupDateKeys(v.Elem())
+		}
+	case reflect.Slice:
+		for i := 0; i < v.Len(); i++ {
+			n += DupDateKeys(v.Index(i))
+		}
+	case reflect.Struct:
+		if v.Type() == timeType {
+			return 0
+		}
+		for i := 0; i < v.NumField(); i++ {
+			n += DupDateKeys(field(v, i))
+		}
+	case reflect.Map:
+		keys := v.MapKeys()
+		// values first (copies, put back)
+		for _, k := range keys {
+			cur := v.MapIndex(k)
+			if !cur.IsValid() {
+				continue // a NaN key: not retrievable
+			}
+			cp := reflect.New(v.Type().Elem()).Elem()
+			cp.Set(cur)
+			if m := DupDateKeys(cp); m > 0 {
+				v.SetMapIndex(k, cp)
+				n += m
+			}
+		}
+		if v.Type().Key() == timeType && len(keys) > 0 {
+			best := keys[0].Interface().(time.Time)
+			for _, k := range keys[1:] {
+				if t := k.Interface().(time.Time); t.Before(best) {
+					best = t
+				}
+			}
+			v.SetMapIndex(reflect.ValueOf(best.In(dupZone)), v.MapIndex(reflect.ValueOf(best)))
+			n++
+		}
+	}
+	return n
 }
